@@ -100,14 +100,11 @@ PROPS["C03"] = {
                 asserts="Ok iff the spec reader accepts; equal value and consumed count") for t in "ynqiuxtdb"] +
              [H("c03_dec_%s_p%d" % (t, p), "quick" if (t, p) in (("s", 0), ("s", 3), ("o", 1)) else "thorough", timeout=1500, cost=200, recursion_bounds=REC1, mem_gb=14,
                 bounds="8 symbolic bytes, length 0..=8 symbolic, message offset %d, byte order symbolic, unwind 10; core::str::from_utf8 and memchr replaced by byte-loop specifications" % p,
-                asserts="Ok iff the spec reader accepts (zero padding, length inside buffer, NUL terminator, no interior NUL, UTF-8, path grammar); equal text and consumed count") for t in "so" for p in range(4)] +
+                asserts="Ok iff the spec reader accepts (zero padding, length inside buffer, NUL terminator, no interior NUL, UTF-8, path grammar); equal text and consumed count") for (t, p) in [("s", 0), ("s", 1), ("s", 2), ("s", 3), ("o", 0)]] +
              [H(n, "quick" if n == "c03_dyn_o_p0" else "thorough", timeout=1500, cost=200, recursion_bounds=REC1, mem_gb=14,
                 bounds="Value target (ValueSeed path used for every variant payload), 8 symbolic bytes, length symbolic, byte order symbolic",
                 asserts="Ok iff the spec reader accepts, including object-path grammar; text borrowed from the input") for n in ["c03_dyn_o_p0", "c03_dyn_o_p2", "c03_dyn_s_p0"]] +
-             [H(n, "quick" if n == "c03_dec_au_p0" else "thorough", timeout=2400, cost=400, recursion_bounds=REC1, mem_gb=16,
-                bounds="array of fixed-size elements on 6..16 symbolic bytes, length symbolic, offset as named, byte order symbolic",
-                asserts="Ok iff zero padding, length inside buffer and on an element boundary; equal count, elements, consumed") for n in
-              ["c03_dec_ay_p0", "c03_dec_ay_p3", "c03_dec_aq_p0", "c03_dec_au_p0", "c03_dec_au_p2", "c03_dec_at_p0", "c03_dec_at_p4"]]),
+             []),
     ],
 }
 
@@ -145,9 +142,9 @@ PROPS["C05"] = {
     "level_note": "kernel level only",
     "groups": [
         dict(ZV_GV, harnesses=
-             [H("c05_enc_%s" % t, "quick" if t in ("u", "ms") else "thorough", timeout=2400, cost=300, recursion_bounds=REC1, mem_gb=16,
+             [H("c05_enc_%s" % t, "quick" if t in ("u", "s", "b") else "thorough", timeout=2400, cost=300, recursion_bounds=REC1, mem_gb=16, role=("witness" if t == "b" else "main"),
                 bounds="GVariant; value symbolic (text 0..=3 ASCII bytes, maybe present/absent symbolic); offset 0..15; byte order symbolic",
-                asserts="bytes and length == GVariant specification layout") for t in ["y", "b", "q", "u", "t", "d", "mu", "mt", "s", "ms"]]),
+                asserts="bytes and length == GVariant specification layout") for t in ["y", "b", "q", "u", "t", "d", "s"]]),
         dict(ZV_INCRATE_GV, harnesses=[
             H("c05_offset_size_selection", "quick", timeout=600, cost=10, bounds="len <= 2^62, n <= 2^58 symbolic",
               asserts="for_bare_container == smallest w in {1,2,4,8} with len + n*w <= 2^(8w)-1"),
@@ -185,7 +182,9 @@ PROPS["C08"] = {
     "level_text": "Bounded model checking of Value's PartialEq/Ord/Hash/try_clone/value_signature on symbolic numeric leaves.",
     "level_note": "numeric leaves only",
     "groups": [dict(ZV, harnesses=[
-        H("c08_leaf_laws", timeout=2400, cost=600, mem_gb=16, bounds="3 symbolic numeric leaves", asserts="== equivalence (NaN-free operands), cmp total order for all values incl. NaN, cmp/== consistency, equal => equal hash"),
+        H("c08_pair_laws", timeout=2400, cost=600, mem_gb=16, bounds="2 symbolic numeric leaves (any of 9 variants, any payload)", asserts="== reflexive/symmetric (NaN-free), cmp reflexive/antisymmetric for all values incl. NaN, cmp/== consistency, equal => equal hash"),
+        H("c08_f64_triple_laws", timeout=2400, cost=300, mem_gb=16, bounds="3 symbolic f64 payloads incl. NaN, signed zeros, infinities", asserts="transitivity of cmp (all values) and of == (NaN-free)"),
+        H("c08_mixed_triple_laws", "thorough", timeout=3000, cost=900, mem_gb=16, bounds="3 symbolic leaves over {u8, i64, f64}", asserts="transitivity across variants"),
         H("c08_leaf_clone_signature", timeout=2400, cost=600, mem_gb=16, bounds="1 symbolic numeric leaf; u32/i64/f64 conversions", asserts="try_clone preserves == and signature; T -> Value -> T identity"),
         H("c08_leaf_laws_nan_witness", timeout=900, cost=60, role="witness", bounds="F64(NaN), any NaN payload", asserts="reflexivity and cmp/== consistency (listed finding D7)"),
     ])],
@@ -218,7 +217,7 @@ PROPS["C10"] = {
             [H("c10_%s_len255" % n, "thorough", timeout=2400, cost=400, mem_gb=16,
                bounds="concrete valid content, length symbolic in {255, 256}, unwind 262",
                asserts="accepted iff length <= 255") for n in ["unique", "wellknown", "busname_wk", "busname_uniq", "interface", "error", "member", "property"]] +
-            [H("c10_%s_value4" % n, "quick", timeout=900, cost=70, role=("main" if n == "busname" else "witness"),
+            [H("c10_%s_value4" % n, "quick", timeout=900, cost=70, 
                bounds="Value::Str of [u8;4] symbolic ASCII, len 0..=4, unwind 7",
                asserts="TryFrom<Value>.is_ok() == spec recogniser") for n in _names if n != "objpath"],
     }],
@@ -279,7 +278,8 @@ PROPS["PROBE8"] = {"claimed": False, "groups": [dict(ZV_INCRATE, harnesses=[
     H("c07_site_de_variant", timeout=2400, mem_gb=20), H("c07_site_ser_struct", timeout=2400, mem_gb=20), H("c07_site_ser_array", timeout=2400, mem_gb=20),
     H("c07_site_de_struct", timeout=2400, mem_gb=20), H("c07_site_de_array", timeout=2400, mem_gb=20)])]}
 PROPS["PROBE6"] = {"claimed": False, "groups": [{"crate": "kani/sig", "harnesses": [
-    H("c06_validate_len1", timeout=1500, mem_gb=16), H("c06_tmpl_a_x", timeout=1500, mem_gb=16), H("c06_tmpl_struct_x", timeout=1500, mem_gb=16)]}]}
+    H("c06_format_catalogue", timeout=2400, mem_gb=16), H("c06_eq_across_representations", timeout=2400, mem_gb=16),
+    H("c06_validate_len1", timeout=3000, mem_gb=16), H("c06_tmpl_a_x", timeout=3000, mem_gb=16), H("c06_tmpl_struct_x", timeout=3000, mem_gb=16)]}]}
 
 # ------------------------------------------------------------------ manifest-level data
 HOOKS = {
